@@ -7,6 +7,7 @@ import (
 	"flag"
 	"fmt"
 	"os"
+	"os/exec"
 	"path/filepath"
 	"regexp"
 	"sort"
@@ -337,6 +338,42 @@ func runCheck(repo, verif, prop string, thorough, verbose, writeEvidence, update
 			lines = append(lines, fmt.Sprintf("  failed obligation (new, reproduced on the real code): %s", o.o.ID))
 		}
 	}
+	// bounded stand-ins (labelled bounded; never added to discharged). A mismatch is a failing input on the real code.
+	standins := runStandins(eng, repo, verif, prop, thorough)
+	for _, sres := range standins {
+		if failed, _ := sres["failed"].(bool); failed {
+			violations++
+			rp := filepath.Join(verif, "replays", fmt.Sprintf("%s-bounded-%08x.json", prop, hashStr(fmt.Sprint(sres["test"]))))
+			data, _ := json.MarshalIndent(map[string]interface{}{"property": prop, "obligation": "bounded:" + fmt.Sprint(sres["test"]), "kind": "bounded stand-in",
+				"reproduced": true, "failing_case": sres["first_mismatch"], "output": sres["output"], "replay_cmd": sres["cmd"]}, "", " ")
+			os.WriteFile(rp, append(data, '\n'), 0o644)
+			lines = append(lines, fmt.Sprintf("VIOLATION property=%s replay=%s", prop, rp))
+			lines = append(lines, fmt.Sprintf("  bounded stand-in %v found a failing case on the real code: %v", sres["test"], sres["first_mismatch"]))
+		}
+	}
+	// thorough tier extras: reachability of every obligation point, assumption audit
+	var unreachable []string
+	var audit map[string]interface{}
+	if thorough {
+		var reach []*Oblig
+		for _, o := range run.obls {
+			if o.prel == nil || o.Reach == "true" || o.Reach == "" || o.Result != "unsat" || o.Solver == "trivial" {
+				continue
+			}
+			reach = append(reach, &Oblig{ID: "reach:" + o.ID, Kind: "canary", Reach: o.Reach, Formula: "false", prel: o.prel})
+		}
+		solveAll(reach, wd, 10, false, 12)
+		for _, rch := range reach {
+			if rch.Result == "unsat" {
+				unreachable = append(unreachable, strings.TrimPrefix(rch.ID, "reach:"))
+			}
+		}
+		audit = runAudit(verif, seed)
+		if ok, _ := audit["passed"].(bool); !ok {
+			fmt.Printf("ENGINE-ERROR: assumption audit failed (an assumed library contract disagrees with the library): %v\n", audit["output"])
+			return 2
+		}
+	}
 	wall := time.Since(t0).Seconds()
 	// evidence
 	var fnNames []string
@@ -388,6 +425,13 @@ func runCheck(repo, verif, prop string, thorough, verbose, writeEvidence, update
 	}
 	if sweep != nil {
 		cov["sweep"] = sweep.summary()
+	}
+	if len(standins) > 0 {
+		cov["bounded_standins_not_counted_as_proved"] = standins
+	}
+	if thorough {
+		cov["obligation_points_unreachable"] = unreachable
+		cov["assumption_audit_bounded_not_proof"] = audit
 	}
 	ev := Evidence{PropertyID: prop, Tier: tier, Seed: seed, Level: "proof", Coverage: cov, Assumptions: propAssumptions(verif, prop), WallS: round3(wall), Violations: violations}
 	if writeEvidence {
@@ -469,4 +513,109 @@ func writeReplay(eng *Engine, verif, prop string, o *Oblig) *ReplayRecord {
 	data, _ := json.MarshalIndent(r, "", " ")
 	os.WriteFile(r.Path, append(data, '\n'), 0o644)
 	return r
+}
+
+
+// runAudit: differential tests of the executable readings of assumed library contracts (bounded; trusted base only).
+func runAudit(verif string, seed int) map[string]interface{} {
+	cmd := exec.Command("go", "test", "-count=1", "-v", "./...")
+	cmd.Dir = filepath.Join(verif, "audit")
+	env := []string{"GOFLAGS=-mod=mod", "GOPROXY=off", "GOTOOLCHAIN=local", fmt.Sprintf("VERIF_SEED=%d", seed)}
+	for _, e := range os.Environ() {
+		if strings.HasPrefix(e, "GOFLAGS=") || strings.HasPrefix(e, "GOPROXY=") || strings.HasPrefix(e, "GOTOOLCHAIN=") || strings.HasPrefix(e, "VERIF_SEED=") {
+			continue
+		}
+		env = append(env, e)
+	}
+	cmd.Env = env
+	out, err := cmd.CombinedOutput()
+	text := string(out)
+	var tests []string
+	for _, l := range strings.Split(text, "\n") {
+		if strings.HasPrefix(l, "--- PASS") || strings.HasPrefix(l, "--- FAIL") {
+			tests = append(tests, strings.TrimSpace(l))
+		}
+	}
+	res := map[string]interface{}{"passed": err == nil, "tests": tests,
+		"what": "go test in /verif/audit: Cookie.String length formula, base64 round trip/alphabet, Split/SplitN/IndexAny/LastIndexByte/IndexRune bounds, quoted cookie-name regexp axiom, http.Header Del/Add/Set model"}
+	if err != nil {
+		res["output"] = firstLines(text, 20)
+	}
+	return res
+}
+
+
+type standinSpec struct {
+	Property      string `json:"property"`
+	Pkg           string `json:"pkg"`
+	File          string `json:"file"`
+	Test          string `json:"test"`
+	BoundQuick    int    `json:"bound_quick"`
+	BoundThorough int    `json:"bound_thorough"`
+	What          string `json:"what"`
+}
+
+var boundedRe = regexp.MustCompile(`GCV-BOUNDED: evaluations=(\d+) mismatches=(\d+) bound=(\d+) first=(.*)`)
+
+// runStandins runs the bounded stand-ins of a property against the real code of the tree under check (go test -overlay).
+func runStandins(eng *Engine, repo, verif, prop string, thorough bool) []map[string]interface{} {
+	var specs []standinSpec
+	data, err := os.ReadFile(filepath.Join(verif, "bounded", "standins.json"))
+	if err != nil {
+		return nil
+	}
+	json.Unmarshal(data, &specs)
+	var out []map[string]interface{}
+	for _, sp := range specs {
+		if sp.Property != prop {
+			continue
+		}
+		bound := sp.BoundQuick
+		if thorough {
+			bound = sp.BoundThorough
+		}
+		wd, _ := os.MkdirTemp("", "gcv-bounded-")
+		ov := map[string]map[string]string{"Replace": {filepath.Join(repo, sp.Pkg, "zz_gcv_bounded_test.go"): filepath.Join(verif, "bounded", sp.File)}}
+		ovData, _ := json.Marshal(ov)
+		ovFile := filepath.Join(wd, "overlay.json")
+		os.WriteFile(ovFile, ovData, 0o644)
+		t0 := time.Now()
+		cmd := exec.Command("go", "test", "-overlay", ovFile, "-vet=off", "-count=1", "-v", "-timeout", "300s", "-run", "^"+sp.Test+"$", ".")
+		cmd.Dir = filepath.Join(repo, sp.Pkg)
+		env := []string{"GOFLAGS=-mod=mod", "GOPROXY=off", "GOTOOLCHAIN=auto", fmt.Sprintf("GCV_BOUND=%d", bound)}
+		for _, e := range os.Environ() {
+			if strings.HasPrefix(e, "GOSUMDB=") || strings.HasPrefix(e, "GOFLAGS=") || strings.HasPrefix(e, "GOTOOLCHAIN=") || strings.HasPrefix(e, "GOPROXY=") || strings.HasPrefix(e, "GCV_BOUND=") {
+				continue
+			}
+			env = append(env, e)
+		}
+		cmd.Env = env
+		outB, runErr := cmd.CombinedOutput()
+		os.RemoveAll(wd)
+		text := string(outB)
+		res := map[string]interface{}{"test": sp.Test, "package": sp.Pkg, "what": sp.What, "bound": bound, "label": "bounded", "seconds": round3(time.Since(t0).Seconds()),
+			"cmd": fmt.Sprintf("GCV_BOUND=%d go test -overlay <%s> -run ^%s$ . (in %s/%s)", bound, sp.File, sp.Test, repo, sp.Pkg)}
+		if m := boundedRe.FindStringSubmatch(text); m != nil {
+			ev, _ := strconv.Atoi(m[1])
+			mm, _ := strconv.Atoi(m[2])
+			res["evaluations"] = ev
+			res["mismatches"] = mm
+			if mm > 0 {
+				res["failed"] = true
+				res["first_mismatch"] = strings.TrimSpace(m[4])
+				res["output"] = firstLines(text, 12)
+			}
+		} else if runErr != nil {
+			// the stand-in did not run to completion (does not compile against a changed tree, panicked, ...)
+			if strings.Contains(text, "panic:") || strings.Contains(text, "--- FAIL") {
+				res["failed"] = true
+				res["first_mismatch"] = "stand-in test failed without a summary line"
+				res["output"] = firstLines(text, 20)
+			} else {
+				res["not_run"] = firstLines(text, 6)
+			}
+		}
+		out = append(out, res)
+	}
+	return out
 }
